@@ -603,6 +603,8 @@ def check(ctx):
     from . import c01
     c01.rule_orthogonal_indexer(ctx, rid='R8')
     c01.rule_issorted_provenance(ctx, rid='R9')
+    # the bounds of a slice are searched by value only on numeric axes (is_numeric table, shared with C01)
+    c01.rule_is_numeric(ctx, rid='R10')
     # label slices on a Dataset are applied per variable by Dataset.take: positions keyed by each variable's own dimension names (shared with C14)
     from . import c14
     from ..report import Renamed
